@@ -27,6 +27,7 @@
 import sys
 import ast
 from base64 import b64decode, b64encode
+from collections.abc import Mapping
 
 from frappy.errors import ConfigError, ProgrammingError, \
     RangeError, WrongTypeError
@@ -806,6 +807,9 @@ class ArrayOf(DataType):
         return f'ArrayOf({repr(self.members)}, {self.minlen}, {self.maxlen})'
 
     def check_type(self, value):
+        if isinstance(value, (str, Mapping)):
+            # do not take a string as a list of characters or a dict as a list of its keys
+            raise WrongTypeError(f'{type(value).__name__} can not be converted to ArrayOf DataType!')
         try:
             # check number of elements
             if self.minlen is not None and len(value) < self.minlen:
@@ -846,6 +850,8 @@ class ArrayOf(DataType):
 
     def import_value(self, value):
         """returns a python object from serialisation"""
+        if not isinstance(value, (list, tuple)):
+            raise WrongTypeError(f'{type(value).__name__} can not be converted to ArrayOf DataType!')
         return tuple(self.members.import_value(elem) for elem in value)
 
     def format_value(self, value, unit=True):
@@ -903,6 +909,9 @@ class TupleOf(DataType):
         return f"TupleOf({', '.join([repr(st) for st in self.members])})"
 
     def check_type(self, value):
+        if isinstance(value, (str, Mapping)):
+            # do not take a string as a list of characters or a dict as a list of its keys
+            raise WrongTypeError(f'{type(value).__name__} can not be converted to TupleOf DataType!')
         try:
             if len(value) == len(self.members):
                 return
@@ -936,6 +945,7 @@ class TupleOf(DataType):
 
     def import_value(self, value):
         """returns a python object from serialisation"""
+        self.check_type(value)
         return tuple(sub.import_value(elem) for sub, elem in zip(self.members, value))
 
     def format_value(self, value, unit=True):
